@@ -45,6 +45,9 @@ type Emit struct {
 	From  string        `json:"from,omitempty"` // udp: source ip:port
 	Data  []byte        `json:"data,omitempty"`
 	Class string        `json:"class,omitempty"`
+	// Split: a TCP message leaves the peer in several segments of these sizes (the last takes the rest), Gap apart
+	Split []int         `json:"split,omitempty"`
+	Gap   time.Duration `json:"gap,omitempty"`
 	// ToPort overrides the destination port (stale/misdirected datagrams); 0 = the request's source port
 	ToPort uint16 `json:"toport,omitempty"`
 }
